@@ -13,7 +13,7 @@ from ..refvm import IncludeParseError, RefVM, norm_url, resolve
 
 ROOTS = ['https://host.example/a/b/main.bare', '/home/u/proj/main.bare', 'proj/main.bare', 'main.bare', 'https://host.example/main.bare', None,
          'vfs://store/a/b/main.bare', 'app:/pkg/scripts/main.bare', 'gs://bucket/main.bare', 'file:///srv/x/main.bare', 'http://h.example/a/main.bare?v=1']
-SYS_PREFIXES = ['/sys/prefix/', 'sys/', 'https://cdn.example/lib/', 'lib/sys/', '/sys/prefix/', 'mem://lib/', 'zip:/bundle/lib/', '/opt/sysdir/index', 'https://cdn.example/v1/index.bare']
+SYS_PREFIXES = ['/sys/prefix/', 'sys/', 'https://cdn.example/lib/', 'lib/sys/', '/sys/prefix/', 'mem://lib/', 'zip:/bundle/lib/', '/opt/sysdir/index', 'https://cdn.example/v1/index.bare', None, None]  # None: no system prefix configured - a system include resolves like a plain one
 
 
 def plan(tier, seed):
@@ -82,7 +82,7 @@ def build(rnd, loc, depth, files, counter, prefix):
             child = ref
         else:
             ref = 's/' + name
-            child = resolve(prefix, ref)  # against the prefix like against a file: a prefix without a trailing "/" names a sibling
+            child = resolve(prefix, ref) if prefix is not None else join_dir(loc, ref)  # against the prefix like against a file: a prefix without a trailing "/" names a sibling
         inc_line = f'include <{ref}>' if style in ('sys', 'sysabs') else f"include '{ref}'"
         if depth == 0 and rnd.random() < 0.25:
             # an include statement inside a function that is defined and called in this same file: it still runs in GLOBAL
@@ -292,7 +292,7 @@ def run_shard(spec, acc):
         rnd = random.Random(base + i)
         root, main, files, prefix = make_tree(rnd)
         acc.cover('roots', repr(root))
-        acc.cover('system_prefixes', prefix)
+        acc.cover('system_prefixes', repr(prefix))
         check_tree(root, main, files, acc, api, prefix)
     if acc.counters.get('fetch_calls_observed', 0) == 0:
         acc.note_inconclusive('no fetch call was observed')
